@@ -33,6 +33,10 @@ Plan gen_c14(sk::Rng& r, Tier tier) {
     p.knobs["deschedule"] = r.pick<std::int64_t>({0, 0, 40, 300});   // long preemptions of arbitrary threads (senders, readers, tick)
     const bool faulty = r.chance(1, 3);
     p.knobs["faulty"] = faulty;
+    // in a quarter of the runs the session key rotates (5 s interval) between bursts: both ends tick at one quiet instant (ticks are
+    // otherwise off in these runs, so no frame is in flight across a switch: what two ends do around their own tick is C39's subject)
+    const bool rotating = r.chance(1, 4);
+    p.knobs["rotation"] = rotating ? 5 : 3600;
     const int n = static_cast<int>(r.range(2, tier == Tier::Quick ? 6 : 10));
     for (int i = 0; i < n; ++i) {
         Op op;
@@ -43,7 +47,8 @@ Plan gen_c14(sk::Rng& r, Tier tier) {
             if (tiny && size > 4095) size = r.pick<std::int64_t>({0, 1, 63, 64, 65, 300, 4095});
             if (size >= 65536 && !r.chance(1, 3)) size = r.range(0, 2000);
             op.k = "burst"; op.a = {static_cast<std::int64_t>(r.below(2)), r.range(1, 3), r.range(1, size >= 65536 ? 2 : 5), size};
-        } else if (c < 80) { op.k = "oversend"; op.a = {static_cast<std::int64_t>(r.below(2))}; }
+        } else if (rotating && c < 84) { op.k = "rotate"; op.a = {r.range(1, 2)}; }
+        else if (c < 80) { op.k = "oversend"; op.a = {static_cast<std::int64_t>(r.below(2))}; }
         else if (c < 88) { op.k = "raw_oversize"; op.a = {r.pick<std::int64_t>({(1 << 20) + 1, 1 << 24, 0x7fffffff, 0xffffffffLL}), r.pick<std::int64_t>({0, 1, 100})}; }
         // the receiving application stops reading for a while (its handler is busy): buffers fill up, senders block for seconds
         else if (c < 93) { op.k = "stall"; op.a = {static_cast<std::int64_t>(r.below(2)), r.pick<std::int64_t>({800, 2000, 3500, 4500, 6000, 12000})}; }
@@ -70,7 +75,8 @@ void exec_c14(const Plan& p, Ctx& ctx) {
     NodeProc A, B;
     en::Config ca = base_config(101), cb = base_config(202);
     ca.cleanup_interval = cb.cleanup_interval = seconds(3600);
-    ca.key_rotation_interval = cb.key_rotation_interval = seconds(3600);  // rotation is C39's subject
+    const bool rotating = p.knob("rotation", 3600) < 3600;
+    ca.key_rotation_interval = cb.key_rotation_interval = seconds(p.knob("rotation", 3600));  // what the two ends do around their own ticks is C39's subject
     A.start("nodeA", sk::ip(10, 0, 1, 1), kA, ca, p.knob("tick_ms", 1000) * kMs, 100 * kMs);
     B.start("nodeB", sk::ip(10, 0, 1, 2), kB, cb, p.knob("tick_ms", 1000) * kMs, 350 * kMs);
     sk::tap_enable(true);
@@ -89,6 +95,13 @@ void exec_c14(const Plan& p, Ctx& ctx) {
     std::vector<Sent> sent;
     int seq[2][4] = {{0}};
     bool reset_injected = false;
+    if (rotating) A.actor.tick_enabled = B.actor.tick_enabled = false;
+    auto settle = [&] {  // nothing armed, nothing stalling, nothing in flight
+        A.stall_next_message_ns = B.stall_next_message_ns = 0;
+        sk::wait_until([&] { return A.stalls_in_progress == 0 && B.stalls_in_progress == 0; }, 120 * kSec);
+        std::size_t la = A.inbox.size() + 1, lb = B.inbox.size() + 1;
+        for (int i = 0; i < 60 && (la != A.inbox.size() || lb != B.inbox.size()); ++i) { la = A.inbox.size(); lb = B.inbox.size(); sk::sleep_ns(500 * kMs + p.knob("lat_max_us", 2000) * 4000); }
+    };
 
     for (auto& op : p.ops) {
         ++ctx.ops_done;
@@ -185,6 +198,16 @@ void exec_c14(const Plan& p, Ctx& ctx) {
             }
         } else if (op.k == "reset") {
             if (sk::fault_reset_stream(op.at(0) == 0 ? A.actor.pid : B.actor.pid, 0)) { reset_injected = true; ctx.fault("conn_reset_injected"); }
+        } else if (op.k == "rotate") {
+            if (!rotating) continue;
+            // both ends pass op.at(0) rotation boundaries at one quiet instant: everything sent so far has been delivered, then both tick
+            settle();
+            sk::sleep_ns(op.at(0) * 5 * kSec + 100 * kMs);
+            std::optional<std::array<std::uint8_t, 32>> ka0, ka1, kb1;
+            A.run([&](en::Node& n) { ka0 = n.session_key(kB); n.tick(); ka1 = n.session_key(kB); });
+            B.run([&](en::Node& n) { n.tick(); kb1 = n.session_key(kA); });
+            if (ka0 && ka1 && kb1 && *ka0 != *ka1 && *ka1 == *kb1) ctx.boundary("session_key_rotated_between_bursts");
+            else ctx.probe("rotate_without_effect");
         } else if (op.k == "pause") {
             sk::sleep_ns(op.at(0) * kMs);
         } else if (op.k == "stall") {
